@@ -182,22 +182,34 @@ def check_who_may_delete(ctx, facts):
 
 
 def snapshot_field_map(ctx, facts):
-    """tuple index -> FileState field for FileStateTracker::get_state_snapshot"""
+    """slot -> FileState field for the value FileStateTracker::get_state_snapshot hands out: a 4-tuple (slot = index) or a
+    struct with four fields (slot = field name), built in the function itself or in a closure of it"""
     b = facts.body("allocator::FileStateTracker::get_state_snapshot")
     ctx.saw_body(b)
-    fmap = {}
-    for site, st in b.assigns():
-        rv = st["rv"]
-        if rv["k"] == "agg" and rv.get("akind") == "tuple" and len(rv["ops"]) == 4:
-            for i, o in enumerate(rv["ops"]):
-                src, _, _ = origins(b, o, stop_calls=[r"Atomic.*::load$"])
+    best = {}
+    for bd in [b] + facts.closures_of(b):
+        for site, st in bd.assigns():
+            rv = st["rv"]
+            if rv["k"] != "agg" or len(rv.get("ops") or []) != 4:
+                continue
+            if rv.get("akind") == "tuple":
+                slots = list(range(4))
+            elif rv.get("akind") == "adt" and rv.get("fields") and len(rv["fields"]) == 4:
+                slots = list(rv["fields"])
+            else:
+                continue
+            fmap = {}
+            for slot, o in zip(slots, rv["ops"]):
+                src, _, _ = origins(bd, o, stop_calls=[r"Atomic.*::load$"])
                 loads = [x for x in src if x.kind == "call" and re.search(r"Atomic::load$", x.what)]
                 if len(loads) == 1:
-                    pr = provenance(b, loads[0].site.node["args"][0])
+                    pr = provenance(bd, loads[0].site.node["args"][0])
                     fs = [x.what[1] for x in pr if x.kind == "field" and x.what[0].endswith("FileState")]
                     if len(fs) == 1:
-                        fmap[i] = fs[0]
-    return fmap
+                        fmap[slot] = fs[0]
+            if len(fmap) > len(best):
+                best = fmap
+    return best
 
 
 def check_ready_predicate(ctx, facts):
@@ -208,7 +220,7 @@ def check_ready_predicate(ctx, facts):
     want = {"locked_block_ctr", "checkpoint_block_ctr", "total_blocks", "is_fully_allocated"}
     if set(fmap.values()) != want or len(fmap) != 4:
         ctx.violate("C12.2", "allocator::FileStateTracker::get_state_snapshot", "snapshot-field-mapping", fc.relfile, None,
-                    "get_state_snapshot no longer returns the four FileState counters one per tuple slot (got %s)" % fmap)
+                    "get_state_snapshot no longer returns the four FileState counters one per slot of a tuple / field of a struct (got %s)" % fmap)
         return
     ctx.ok("C12.2", "allocator::FileStateTracker::get_state_snapshot", "tuple slots map to FileState fields", fc.relfile, None, str(fmap))
     sends = [s for s in fc.calls(re.compile(r"mpsc::Sender::send$"))]
@@ -240,12 +252,14 @@ def check_ready_predicate(ctx, facts):
         for cp in dom:
             for total in dom:
                 for fully in (False, True):
-                    tup = [None] * 4
-                    tup[idx_of["locked_block_ctr"]] = locked
-                    tup[idx_of["checkpoint_block_ctr"]] = cp
-                    tup[idx_of["total_blocks"]] = total
-                    tup[idx_of["is_fully_allocated"]] = fully
-                    cur["tup"] = tuple(tup)
+                    vals = {"locked_block_ctr": locked, "checkpoint_block_ctr": cp, "total_blocks": total, "is_fully_allocated": fully}
+                    if all(isinstance(k_, int) for k_ in fmap):
+                        tup = [None] * 4
+                        for fld, v_ in vals.items():
+                            tup[idx_of[fld]] = v_
+                        cur["tup"] = tuple(tup)
+                    else:
+                        cur["tup"] = {idx_of[fld]: v_ for fld, v_ in vals.items()}   # a struct: field name -> value
                     env = {1: Sym("file_path")}
                     try:
                         r = it.run({}, start_bb=0, stop_blocks=send_blocks, env=env)
@@ -379,7 +393,7 @@ def check_marks(ctx, facts):
                 n_read += 1
                 judge_mark(ctx, b, s, s.node["args"][0], caller, idem, facts=facts)
             elif caller == "walrus::Walrus::startup_chore":
-                asrc, _, _ = origins(b, s.node["args"][0])
+                asrc, _, _ = origins(b, s.node["args"][0], passthrough_extra=[r"slice::(get|first|last|get_unchecked)$", r"::take$", r"::skip$", r"::rev$"])
                 from_chain = any(o.kind == "field" and o.what[1] == "chain" for o in asrc) and any(o.kind == "field" and o.what[1] == "id" for o in asrc)
                 # dominated by the Some edge of WalIndex::get
                 have_pos = False
@@ -430,29 +444,60 @@ def check_idempotence(ctx, facts, collect=False):
     if not incs:
         ctx.anchor_missing("C12.4", "increment of FileState.checkpoint_block_ctr")
         return
-    # callers of the function(s) that hold the increment, up to the body that knows the block
+    # the increment must be controlled by the previous value of the flag: in its own body, or - through the
+    # bodies that call (or, for a closure, create) it - in every caller, up to the body that performs the swap
+    def controlled(b, bb, depth=0, seen=None):
+        """(verdict, body, line) - verdict True iff every way of reaching block bb of body b passes a branch on the result of the flag's RMW"""
+        seen = seen if seen is not None else set()
+        rm = [r for r in rmws if r.body is b]
+        for r in rm:
+            t = Taint(b, [r.node["dest"]["l"]], track_memory=False)
+            for tb, (region, join) in t.branches.items():
+                if bb in region:
+                    return True, b, None
+        if depth >= 5 or b.name in seen:
+            return False, b, None
+        seen = seen | {b.name}
+        ups = []
+        if b.kind == "Closure" and b.parent in facts.bodies:
+            P = facts.bodies[b.parent]
+            for site, st in P.assigns():
+                rv = st["rv"]
+                if rv["k"] == "agg" and rv.get("akind") == "closure" and rv.get("name") == b.name:
+                    ups.append((P, site.bb, site.line))
+            # the parent may have been absorbed into its callers (core/inline.py)
+            for nm, B2 in facts.bodies.items():
+                if b.parent in (B2.j.get("absorbed_parents") or ()):
+                    for site, st in B2.assigns():
+                        rv = st["rv"]
+                        if rv["k"] == "agg" and rv.get("akind") == "closure" and rv.get("name") == b.name:
+                            ups.append((B2, site.bb, site.line))
+        else:
+            for c_, ss in callers_of(facts, common.short_fn(b.name)).items():
+                for s_ in ss:
+                    ups.append((s_.body, s_.bb, s_.line))
+        ups = [u for u in ups if not u[0].j.get("absorbed")]
+        if not ups:
+            return False, b, None
+        for P, pbb, pline in ups:
+            ok_, wb, wl = controlled(P, pbb, depth + 1, seen)
+            if not ok_:
+                return False, P, pline
+        return True, ups[0][0], ups[0][2]
+
     for inc in incs:
-        holder = common.short_fn(inc.body.name)
-        cs = callers_of(facts, holder)
-        sites = [(c, s) for c, ss in cs.items() for s in ss] or [(holder, inc)]
-        for caller, s in sites:
-            b = s.body
-            ctx.saw_body(b)
-            rm = [r for r in rmws if r.body is b]
-            dep = False
-            for r in rm:
-                t = Taint(b, [r.node["dest"]["l"]], track_memory=False)
-                for bb, (region, join) in t.branches.items():
-                    if s.bb in region:
-                        dep = True
-            results.append(dep)
-            if dep:
-                ctx.ok("C12.4", caller, "consumed counter increment is controlled by the previous flag value", b.relfile, s.line)
-            else:
-                detail = "is_checkpointed is stored %d time(s), loaded %d time(s), read-modify-written %d time(s) in the crate" % (len(stores), len(loads), len(rmws))
-                ctx.violate("C12.4", caller, "consumed-counter-increment-not-idempotent", b.relfile, s.line,
-                            "every call increments the per-file consumed counter, whether or not this block was already marked (%s): repeated marks of one block "
-                            "inflate the counter past total_blocks and a file with unconsumed blocks becomes deletable" % detail)
+        b = inc.body
+        ctx.saw_body(b)
+        dep, wb, wl = controlled(b, inc.bb)
+        results.append(dep)
+        holder = common.short_fn(b.name)
+        if dep:
+            ctx.ok("C12.4", holder, "consumed counter increment is controlled by the previous flag value", b.relfile, inc.line)
+        else:
+            detail = "is_checkpointed is stored %d time(s), loaded %d time(s), read-modify-written %d time(s) in the crate" % (len(stores), len(loads), len(rmws))
+            ctx.violate("C12.4", common.short_fn(wb.name), "consumed-counter-increment-not-idempotent", wb.relfile, wl or inc.line,
+                        "every call increments the per-file consumed counter, whether or not this block was already marked (%s): repeated marks of one block "
+                        "inflate the counter past total_blocks and a file with unconsumed blocks becomes deletable" % detail)
     return results
 
 
